@@ -19,7 +19,9 @@ ground state.  Core Lean only.
   `sgr_cons_ext2`, `sgr_two_effect` (`ESC [ a ; b m` = the two SGRs in sequence)
 * modes: `decset_effect`, `decrst_effect` (∀ n: = `decMode n on`), `decMode_st`
 * OSC 8: `osc8_open_effect`, `osc8_close_effect`
-* printing: `print_narrow_effect`, `print_narrow_cells`, `print_last_col_effect`
+* printing: `print_narrow_effect`, `print_narrow_cells`, `print_last_col_effect` (ASCII bytes through `feedByte`);
+  `feed_utf8Enc` (the UTF-8 bytes of any scalar value ≥ 0x80 = `printCp`), `putNarrow_effect`, `putWide_effect`,
+  `putCombining_effect` (glyph level, any code point)
 * erase: `ed2_effect`, `ed2_cells`, `clear_effect` (`ESC [ H ESC [ 2 J`)
 
 How to derive the effect of another fixed capability string on a symbolic terminal `t` with `t.st = .ground`: cut it into
@@ -1082,6 +1084,116 @@ theorem print_last_col_effect (t : Term) (b : Nat) (hst : t.st = .ground) (hb : 
     omega
   simp [feedByte, hst, feedGround, h1, h2, h3, printByte, hfont, hacs, hwd, putGlyph, putNarrow, hk, doWrap, hpw, hirm,
     putNarrowAt, hcl, hx']
+
+end Term
+
+/-! ## UTF-8 text, wide glyphs, combining marks -/
+
+/-- UTF-8 encoding of a code point ≥ 0x80 (reference encoder for the statements below) -/
+def utf8Enc (cp : Nat) : List Nat :=
+  if cp < 0x800 then [0xC0 + cp / 64, 0x80 + cp % 64]
+  else if cp < 0x10000 then [0xE0 + cp / 4096, 0x80 + cp / 64 % 64, 0x80 + cp % 64]
+  else [0xF0 + cp / 262144, 0x80 + cp / 4096 % 64, 0x80 + cp / 64 % 64, 0x80 + cp % 64]
+
+namespace Term
+
+/-- **decoding**: the UTF-8 bytes of a scalar value ≥ 0x80, fed to a UTF-8 terminal in the ground state, print that
+    code point (`printCp`: C1 code points are refused, everything else goes to `putGlyph` with its width) -/
+theorem feed_utf8Enc (t : Term) (hst : t.st = .ground) (hu : t.cfg.utf8 = true) (cp : Nat)
+    (hlo : 0x80 ≤ cp) (hhi : cp ≤ 0x10FFFF) (hsur : ¬ (0xD800 ≤ cp ∧ cp ≤ 0xDFFF)) :
+    t.feed (utf8Enc cp) = t.printCp cp := by
+  unfold utf8Enc
+  by_cases h2 : cp < 0x800
+  · simp only [h2, if_true, feed_cons, feed_nil]
+    have b0 : ¬ (0xC0 + cp / 64 < 0x20) := by omega
+    have b0' : 0xC0 + cp / 64 ≠ 0x7f := by omega
+    have b0'' : ¬ (0xC0 + cp / 64 < 0x80) := by omega
+    have b0r : 0xC2 ≤ 0xC0 + cp / 64 ∧ 0xC0 + cp / 64 ≤ 0xDF := by omega
+    have e1 : t.feedByte (0xC0 + cp / 64) = { t with st := .utf8 1 (cp / 64) 0x80 } := by
+      simp [feedByte, hst, feedGround, b0, b0', b0'', hu, b0r]
+    have c1 : 0x80 ≤ 0x80 + cp % 64 ∧ 0x80 + cp % 64 < 0xC0 := by omega
+    have acc : cp / 64 * 64 + cp % 64 = cp := by omega
+    have ok : ¬ (cp < 0x80 ∨ 0x10FFFF < cp ∨ (0xD800 ≤ cp ∧ cp ≤ 0xDFFF)) := by omega
+    rw [e1]
+    simp [feedByte, feedUtf8, c1, acc, ok, with_ground t hst]
+  · by_cases h3 : cp < 0x10000
+    · simp only [h2, h3, if_true, if_false, feed_cons, feed_nil]
+      have b0 : ¬ (0xE0 + cp / 4096 < 0x20) := by omega
+      have b0' : 0xE0 + cp / 4096 ≠ 0x7f := by omega
+      have b0'' : ¬ (0xE0 + cp / 4096 < 0x80) := by omega
+      have b0n : ¬ (0xC2 ≤ 0xE0 + cp / 4096 ∧ 0xE0 + cp / 4096 ≤ 0xDF) := by omega
+      have b0r : 0xE0 ≤ 0xE0 + cp / 4096 ∧ 0xE0 + cp / 4096 ≤ 0xEF := by omega
+      have e1 : t.feedByte (0xE0 + cp / 4096) = { t with st := .utf8 2 (cp / 4096) 0x800 } := by
+        simp [feedByte, hst, feedGround, b0, b0', b0'', hu, b0n, b0r]
+      have c1 : 0x80 ≤ 0x80 + cp / 64 % 64 ∧ 0x80 + cp / 64 % 64 < 0xC0 := by omega
+      have c2 : 0x80 ≤ 0x80 + cp % 64 ∧ 0x80 + cp % 64 < 0xC0 := by omega
+      have acc1 : cp / 4096 * 64 + cp / 64 % 64 = cp / 64 := by omega
+      have acc2 : cp / 64 * 64 + cp % 64 = cp := by omega
+      have ok : ¬ (cp < 0x800 ∨ 0x10FFFF < cp ∨ (0xD800 ≤ cp ∧ cp ≤ 0xDFFF)) := by omega
+      rw [e1]
+      simp [feedByte, feedUtf8, c1, c2, acc1, acc2, ok, with_ground t hst]
+    · simp only [h2, h3, if_false, feed_cons, feed_nil]
+      have b0 : ¬ (0xF0 + cp / 262144 < 0x20) := by omega
+      have b0' : 0xF0 + cp / 262144 ≠ 0x7f := by omega
+      have b0'' : ¬ (0xF0 + cp / 262144 < 0x80) := by omega
+      have b0n : ¬ (0xC2 ≤ 0xF0 + cp / 262144 ∧ 0xF0 + cp / 262144 ≤ 0xDF) := by omega
+      have b0m : ¬ (0xE0 ≤ 0xF0 + cp / 262144 ∧ 0xF0 + cp / 262144 ≤ 0xEF) := by omega
+      have b0r : 0xF0 ≤ 0xF0 + cp / 262144 ∧ 0xF0 + cp / 262144 ≤ 0xF4 := by omega
+      have e1 : t.feedByte (0xF0 + cp / 262144) = { t with st := .utf8 3 (cp / 262144) 0x10000 } := by
+        simp [feedByte, hst, feedGround, b0, b0', b0'', hu, b0n, b0m, b0r]
+      have c1 : 0x80 ≤ 0x80 + cp / 4096 % 64 ∧ 0x80 + cp / 4096 % 64 < 0xC0 := by omega
+      have c2 : 0x80 ≤ 0x80 + cp / 64 % 64 ∧ 0x80 + cp / 64 % 64 < 0xC0 := by omega
+      have c3 : 0x80 ≤ 0x80 + cp % 64 ∧ 0x80 + cp % 64 < 0xC0 := by omega
+      have acc1 : cp / 262144 * 64 + cp / 4096 % 64 = cp / 4096 := by omega
+      have acc2 : cp / 4096 * 64 + cp / 64 % 64 = cp / 64 := by omega
+      have acc3 : cp / 64 * 64 + cp % 64 = cp := by omega
+      have ok : ¬ (cp < 0x10000 ∨ 0x10FFFF < cp ∨ (0xD800 ≤ cp ∧ cp ≤ 0xDFFF)) := by omega
+      rw [e1]
+      simp [feedByte, feedUtf8, c1, c2, c3, acc1, acc2, acc3, ok, with_ground t hst]
+
+/-- **a narrow glyph** (any code point) away from the last column -/
+theorem putNarrow_effect (t : Term) (cp : Int)
+    (hk : t.cursorKnown = true) (hpw : t.pendingWrap = false) (hirm : t.modes.insertMode = false)
+    (hx : t.cx + 1 < t.w)
+    (hc0 : (t.get t.cx t.cy).cont = false) (hc1 : (t.get (t.cx + 1) t.cy).cont = false) :
+    t.putNarrow cp =
+      { t with
+        grid := t.grid.set t.cx t.cy (t.glyphCell cp)
+        cx := t.cx + 1
+        last := some (t.cx, t.cy, t.cx + 1, t.cy, false) } := by
+  have hcl : t.grid.clobber t.blocks t.cx t.cy = t.grid := Grid.clobber_noop _ _ _ _ hc0 hc1
+  have hxg : t.cx + 1 < t.grid.w := hx
+  simp [putNarrow, hk, doWrap, hpw, hirm, putNarrowAt, hcl, hxg]
+
+/-- **a wide glyph** that fits with room to spare: two cells (glyph + continuation), the cursor advances by two -/
+theorem putWide_effect (t : Term) (cp : Int)
+    (hk : t.cursorKnown = true) (hpw : t.pendingWrap = false) (hirm : t.modes.insertMode = false)
+    (hx : t.cx + 2 < t.w)
+    (hc0 : (t.get t.cx t.cy).cont = false) (hc1 : (t.get (t.cx + 1) t.cy).cont = false)
+    (hc2 : (t.get (t.cx + 2) t.cy).cont = false) :
+    t.putWide cp =
+      { t with
+        grid := (t.grid.set t.cx t.cy (t.glyphCell cp)).set (t.cx + 1) t.cy { t.glyphCell cp with runes := [], cont := true }
+        cx := t.cx + 2
+        last := some (t.cx, t.cy, t.cx + 2, t.cy, false) } := by
+  have hcl : t.grid.clobber t.blocks t.cx t.cy = t.grid := Grid.clobber_noop _ _ _ _ hc0 hc1
+  have hxg : t.cx + 2 < t.grid.w := hx
+  have hfit : ¬ t.grid.w < t.cx + 2 := by omega
+  have g1 : ((t.grid.set t.cx t.cy (t.glyphCell cp)).get (t.cx + 1) t.cy).cont = false := by
+    rw [Grid.get_set_other _ _ _ _ _ _ (by omega)]; exact hc1
+  have g2 : ((t.grid.set t.cx t.cy (t.glyphCell cp)).get (t.cx + 1 + 1) t.cy).cont = false := by
+    rw [Grid.get_set_other _ _ _ _ _ _ (by omega)]; exact hc2
+  have hcl2 : (t.grid.set t.cx t.cy (t.glyphCell cp)).clobber t.blocks (t.cx + 1) t.cy = t.grid.set t.cx t.cy (t.glyphCell cp) :=
+    Grid.clobber_noop _ _ _ _ g1 g2
+  simp [putWide, hk, doWrap, hpw, hirm, w, hfit, putWideAt, hcl, hcl2, hxg]
+
+/-- **a combining mark right after a glyph**: it joins the cell of that glyph, the cursor does not move -/
+theorem putCombining_effect (t : Term) (cp : Int) (x y : Nat)
+    (hk : t.cursorKnown = true) (hl : t.last = some (x, y, t.cx, t.cy, t.pendingWrap)) :
+    t.putCombining cp =
+      { t with grid := t.grid.set x y { t.grid.get x y with
+                 runes := (if (t.grid.get x y).runes.isEmpty then [32] else (t.grid.get x y).runes) ++ [cp], stamp := t.blocks } } := by
+  simp [putCombining, hk, hl, addMark]
 
 end Term
 
